@@ -147,6 +147,7 @@ def run_closed(P, rep, rule="R-CLOSED"):
 
 
 def _some_tag_parse_propagated(P, fn):
+    from mirutil import copy_root
     for bi, t in P.calls(fn):
         f = t.get("f")
         if not f or f["id"].rsplit("::", 1)[1] != "parse" or "Tag" not in f["name"] or "BlockElement" in f["name"]:
@@ -155,7 +156,7 @@ def _some_tag_parse_propagated(P, fn):
         for b2, t2 in P.calls(fn):
             if t2.get("f") and t2["f"]["id"].endswith("Try::branch") and t2["args"]:
                 a0 = op_local(t2["args"][0])
-                if a0 and a0[0] == d:
+                if a0 and (a0[0] == d or copy_root(fn, a0[0]) == d):
                     return True
     return False
 
